@@ -318,7 +318,85 @@ def c17(run):
     run.cov["exhaustive"] = True
 
 
+def text_job(run, mode, extra_env=None):
+    env = dict(run.known_env(), VERIF_TEXT_MODE=mode)
+    env.update(extra_env or {})
+    res = run_tlc("GEN_Text", "gen/GEN_Text.tla", "gen/GEN_Text_%s.cfg" % run.tier, env=env, consumer=[HARNESS, "replay", "text"], timeout=6000)
+    run.add_tlc("GEN_Text", res, "M + S->I: spec/Text.tla renderer (set of admissible renderings, rendering for the loaded order) and longest-match reader evaluated by TLC on every target bundle; "
+                                 "the real get_as_grapheme / word parser must agree with both on every target")
+
+
+def c09(run):
+    run.assumptions += TRUSTED
+    text_job(run, "C09")
+    out = os.path.join(BUILD, "rec-C09.ndjson")
+    summary, _ = run_harness(["record", "C09", out, str(200000 if run.tier == "thorough" else 30000)], env=run.known_env())
+    run.add_summary("record_C09_words", summary, traces=False)
+    tv_laws(run, "C09", out, summary, classify=lambda m: m.get("kf") or None)
+    for f in (out, out + ".meta"):
+        if os.environ.get("VERIF_KEEP"): break
+        try: os.remove(f)
+        except OSError: pass
+    run.cov["rule"] = ("segments: every base, base + one diacritic (quick: a seeded third of the bases), thorough: + two diacritics and all single-feature changes on a seeded part; "
+                       "words: random assemblies of such segments with length, stress, tone and boundaries; non-trivial = rendering needs at least one diacritic / the word is renderable")
+
+
+def c01(run):
+    run.assumptions += TRUSTED[:1] + ["K fresh processes draw different RandomState keys for std HashMap (sampled, cannot be set)",
+                                      "the order-independence of the renderer is decided on the spec's set of admissible renderings over the loaded tables, which covers every iteration order"]
+    ensure_corpus()
+    # (a)+(b): renderer model: the real rendering must equal the spec's rendering for the loaded order in this process, and - unless the order is fixed by construction -
+    # the set of admissible renderings must be a singleton
+    text_job(run, "C01", {"VERIF_ORDER_FIXED": "1" if order_is_fixed() else "0"})
+    # (c): K processes, the same workload, every observation keyed by its input; grouped by key (plumbing), judged by TLC
+    K = 12 if run.tier == "thorough" else 6
+    nitems = 400 if run.tier == "thorough" else 120
+    import subprocess, collections
+    groups = collections.defaultdict(list)
+    total = 0
+    procs = []
+    for p in range(K):
+        out = os.path.join(BUILD, "c01-p%d.ndjson" % p)
+        procs.append((out, subprocess.Popen([HARNESS, "record", "C01", out, str(p), str(nitems)], env=dict(os.environ, **{k: str(v) for k, v in run.known_env().items()}),
+                                            stdout=subprocess.PIPE, stderr=subprocess.PIPE, text=True)))
+    for out, pr in procs:
+        so, se = pr.communicate(timeout=3000)
+        if pr.returncode != 0:
+            raise ToolError("C01 recorder failed: " + se[-2000:])
+        for line in open(out):
+            r = json.loads(line)
+            groups[r["key"]].append([r["p"], r["n"], r["pos"], r["r"]])
+            total += 1
+        os.remove(out)
+    merged = os.path.join(BUILD, "rec-C01.ndjson")
+    with open(merged, "w") as f, open(merged + ".meta", "w") as m:
+        for i, (k, obs) in enumerate(sorted(groups.items())):
+            f.write(json.dumps({"id": i + 1, "key": k, "obs": obs}) + "\n")
+            m.write(json.dumps({"id": i + 1, "key": k, "observations": len(obs), "distinct_results": len(set(o[3] for o in obs))}) + "\n")
+    run.cov["jobs"]["record_C01"] = {"processes": K, "observations": total, "distinct_inputs": len(groups)}
+    run.cov["evaluations"] += total
+    run.cov["distinct_nontrivial"] += len(groups)
+    tv_laws(run, "C01", merged, {"extra": {"records": len(groups)}})
+    for f in (merged, merged + ".meta"):
+        try: os.remove(f)
+        except OSError: pass
+
+
+def order_is_fixed():
+    """the tables are generated twice in separate processes: if the renderer's iteration order differs, it is not fixed by construction"""
+    import subprocess
+    orders = []
+    for i in range(3):
+        d = os.path.join(BUILD, "order-%d" % i)
+        subprocess.run([HARNESS, "tables", d], stdout=subprocess.PIPE, check=True)
+        orders.append(json.load(open(os.path.join(d, "ids.json")))["order"])
+        import shutil; shutil.rmtree(d, ignore_errors=True)
+    return all(o == orders[0] for o in orders)
+
+
 PROPS = {
+    "C01": (c01, "model_checking"),
+    "C09": (c09, "model_checking"),
     "C17": (c17, "fault_enumeration"),
     "C02": (c02, "model_checking"),
     "C06": (c06, "model_checking"),
